@@ -1,3 +1,4 @@
+import TcheranVerif.Model.PositionCmd
 import TcheranVerif.Driver.Gens
 import TcheranVerif.Model.TT
 import TcheranVerif.Model.See
@@ -367,16 +368,6 @@ def ucimovesHandle (text : String) : String × String :=
     (s!"ok [{" ".intercalate (ms.map fun m => String.ofList (UciMove.text m))}] rest=[{(String.ofList rest).replace "\t" "<TAB>"}]", "-")
   | none => ("err", "-")
 
-/-- `UciCommand::Position`: `expect_matching` on the generated moves, then `make_move` -/
-def positionCmd (g : Game) (moves : List Move) : Option Game :=
-  moves.foldl (fun g m => g.bind fun g =>
-    match generateLegal g with
-    | none => none
-    | some legal =>
-      match legal.find? (fun x => x.src = m.src ∧ x.dst = m.dst ∧ x.promotion = m.promotion) with
-      | some x => Game.makeMove theCfg g x
-      | none => none) (some g)
-
 def gameHandle (fen movesText : String) : String × String :=
   match readPosition fen with
   | none => bad
@@ -386,7 +377,7 @@ def gameHandle (fen movesText : String) : String × String :=
     let ms := ms.filterMap id
     let final := ms.foldl (fun pos m => Rules.apply pos m) p.pos
     let spec := s!"fen={posText final}|moves={" ".intercalate (sortStrings ((Rules.legalMoves final).map Move.uci))}"
-    match positionCmd p.game ms with
+    match UciMove.positionCmd p.game (ms.map UciMove.keyOf) with
     | none => ("panic", spec)
     | some g =>
       let legal := (generateLegal g).getD []
